@@ -123,6 +123,7 @@ type FnExec struct {
 	marks    map[string]*State
 	markRes  map[string]SVal
 	markCnt  map[string]int
+	iterKeyUse int // 0 unknown, 1 the contract speaks of iterkey (directly or through a spec function), 2 it does not
 }
 
 type returnInfo struct {
@@ -670,6 +671,16 @@ func (fx *FnExec) mergeStates(sts []*State) *State {
 			out.priv = append(out.priv, r)
 		}
 	}
+	// quantified facts carry their own guard (the path condition they were assumed under), so the union is sound
+	seenQ := map[string]bool{}
+	for _, s := range sts {
+		for _, q := range s.qinst {
+			if k := q.guard + "\x00" + q.bv; !seenQ[k] {
+				seenQ[k] = true
+				out.qinst = append(out.qinst, q)
+			}
+		}
+	}
 	var pcs []Term
 	for _, s := range sts {
 		pcs = append(pcs, s.pc)
@@ -1049,11 +1060,11 @@ func (fr *Frame) enterLoop(h *ssa.BasicBlock, ins []*State, preds []*ssa.BasicBl
 			loopHdrs[fr][h.Index] = st.clone()
 		}
 	}()
+	if loopPres[fr] == nil {
+		loopPres[fr] = map[int]*State{}
+	}
+	loopPres[fr][h.Index] = pre.clone()
 	if spec != nil {
-		if loopPres[fr] == nil {
-			loopPres[fr] = map[int]*State{}
-		}
-		loopPres[fr][h.Index] = pre.clone()
 		for _, c := range spec.Inv {
 			env := fr.specEnv(st, h, nil)
 			env.preSt = loopPres[fr][h.Index]
